@@ -99,6 +99,8 @@ def escaped_violation(hist, prop_default=None):
 # ---------------------------------------------------------------------------
 def check_C01(world, hist, pred):
     out = trace_violations(pred, "C01", hist)
+    if pred.notes.get("hook_interrupt") and not hist.get("escaped") and hist.get("rc") == 0:
+        out.append(V("C01", "false-green", "interrupted-in-hook", rc=0, hook=pred.notes["hook_interrupt"]))
     if hist.get("config_error") or hist.get("escaped") or pred.dead or pred.verdict is None:
         return out
     if pred.notes.get("retried"):
